@@ -98,6 +98,8 @@ def build_native():
             nd = os.path.join(WORK, "native")
             ds = sorted((d for d in os.listdir(nd) if d != rh), key=lambda d: os.path.getmtime(os.path.join(nd, d)))
             for d in ds[:-6]:
+                if time.time() - os.path.getmtime(os.path.join(nd, d)) < PRUNE_AGE:
+                    continue          # used recently (touched by every prepare): a running check may depend on it
                 shutil.rmtree(os.path.join(nd, d), ignore_errors=True)
                 shutil.rmtree(os.path.join(WORK, "rust-target", d), ignore_errors=True)
         same = _same_file(out, installed)
@@ -129,6 +131,9 @@ def _native_cached():
     return _NATIVE
 
 
+PRUNE_AGE = 6 * 3600
+
+
 def prepare(verbose=False):
     """Build native ext, warm the private pycache for this tree.  Idempotent, locked."""
     t0 = time.time()
@@ -149,7 +154,15 @@ def prepare(verbose=False):
             ds = sorted((d for d in os.listdir(pd) if d != th),
                         key=lambda d: os.path.getmtime(os.path.join(pd, d)))
             for d in ds[:-8]:
+                if time.time() - os.path.getmtime(os.path.join(pd, d)) < PRUNE_AGE:
+                    continue          # touched by a prepare() within the last hours: possibly in use by a running check
                 shutil.rmtree(os.path.join(pd, d), ignore_errors=True)
+    for used in (pyc, os.path.dirname(so) if so else None):
+        try:
+            if used:
+                os.utime(used)        # "in use": pruning (by this or a concurrent run on another tree) skips recent ones
+        except OSError:
+            pass
     if verbose:
         print(f"[repo] tree={th} native={'rebuilt:' + so if so else 'installed'} prepare={time.time()-t0:.1f}s",
               flush=True)
